@@ -295,19 +295,21 @@ def rCase (cfg : RCfg) (rec : RRec) (anc : List Cls) (pre : Text) (st : RSt) (ks
 
 def isParenNode (n : FNode) : Bool := n.isInst .Parenthesis
 
+/-- one round of the `while token:` loop of `_process_values`: the break at the next comma after the parenthesis at `tidx` -/
+def rValuesStep (cfg : RCfg) (st : RSt) (pre : Text) (fidx : Nat) (ks : List FNode) (tidx : Nat) : Except PyErr (List FNode) :=
+  match nextIdxFrom (·.matchPunct 44) ks (tidx + 1) with
+  | none => .ok ks
+  | some pidx =>
+    if cfg.commaFirst then
+      (rGetOffset cfg st pre ks fidx).map fun o => insertAt ks pidx (rNl cfg st (o - 2))
+    else
+      (rGetOffset cfg st pre ks tidx).map fun o => insertAfterIdx FNode.isWhitespace ks pidx (rNl cfg st o)
+
 /-- the `while token:` loop of `_process_values`; `fuel` bounds the number of parenthesis children -/
 def rValuesLoop (cfg : RCfg) (st : RSt) (pre : Text) (fidx : Nat) : Nat → List FNode → Nat → Except PyErr (List FNode)
   | 0, ks, _ => .ok ks
   | fuel+1, ks, tidx =>
-    let step : Except PyErr (List FNode) :=
-      match nextIdxFrom (·.matchPunct 44) ks (tidx + 1) with
-      | none => .ok ks
-      | some pidx =>
-        if cfg.commaFirst then
-          (rGetOffset cfg st pre ks fidx).map fun o => insertAt ks pidx (rNl cfg st (o - 2))
-        else
-          (rGetOffset cfg st pre ks tidx).map fun o => insertAfterIdx FNode.isWhitespace ks pidx (rNl cfg st o)
-    match step with
+    match rValuesStep cfg st pre fidx ks tidx with
     | .error e => .error e
     | .ok ks1 =>
       match nextIdxFrom isParenNode ks1 (tidx + 1) with
